@@ -51,6 +51,14 @@ def handle (st : DState) (line : String) : DState × String :=
             match xs0 with
             | i :: xs => (st, showExcept toString (Py.idx xs i))
             | [] => (st, "bad-op")
+          else if op == "slice" then
+            match xs0 with
+            | lo :: hi :: xs => (st, showIntList (Py.sliceBetween xs lo hi))
+            | _ => (st, "bad-op")
+          else if op == "slicefrom" then
+            match xs0 with
+            | lo :: xs => (st, showIntList (Py.sliceFromI xs lo))
+            | _ => (st, "bad-op")
           else if op == "range" then
             match xs0 with
             | [n] => (st, showIntList (Py.rangeInt n))
